@@ -15,6 +15,25 @@ Definition ops_safe : list op :=
   [RegisterCell 0 0 cA 0%Z; RegisterCell 0 1 cB 0%Z; RegisterCell 1 0 cB 0%Z; LayerStep 0;
    DelMonitor 0 1 n_trace_pre; TrainerMode 1 false; LayerStep 0; DelCell 1 0].
 
+(* an instance of the history theorem obs_count_is_training_steps: 4 calls, 2 of them while trainer and layer train *)
+Definition s_h : state := run w1 (init_state w1 [TMSTDPET]) [RegisterCell 0 0 cA 0%Z].
+Definition ops_h : list op :=
+  [LayerStep 0; TrainerMode 0 false; LayerStep 0; TrainerMode 0 true; LayerMode 0 false; LayerStep 0; LayerMode 0 true;
+   LayerStep 0].
+Theorem nonvacuous_history :
+  Inv1 s_h /\ TI s_h /\ Complete s_h /\ safe_run w1 s_h ops_h = true /\ persists w1 s_h ops_h 0 4 /\
+  m_layer (get_mon s_h 4) < length (layers s_h) /\ training_steps w1 s_h ops_h 0 (m_layer (get_mon s_h 4)) = 2 /\
+  length (m_obs (get_mon (run w1 s_h ops_h) 4)) = 2.
+Proof.
+  assert (R : Inv1 s_h /\ TI s_h) by (apply run_TI; [apply Inv1_init|apply TI_init]). destruct R as [I T].
+  split; [exact I|]. split; [exact T|].
+  split; [apply run_Complete; [vm_compute; reflexivity|apply Inv1_init|apply TI_init|apply Complete_init]|].
+  split; [vm_compute; reflexivity|].
+  split; [|vm_compute; repeat split; lia].
+  vm_compute. repeat split; try tauto; intros l E; try discriminate E; reflexivity.
+Qed.
+Print Assumptions nonvacuous_history.
+
 Theorem nonvacuous :
   safe_run w1 (init_state w1 [TMSTDPET]) ops_nv = true /\
   safe_run w1 (init_state w1 [TSTDP false; THomeostasis]) ops_safe = true /\
